@@ -96,6 +96,17 @@ func main() {
 		}
 		return
 	}
+	if cmd == "rows" {
+		w, err := world.Build(p)
+		if err != nil {
+			fmt.Fprintln(os.Stderr, "world:", err)
+			os.Exit(2)
+		}
+		for _, l := range checks.DumpRows(&checks.Ctx{P: p, W: w, Tier: "quick"}) {
+			fmt.Println(l)
+		}
+		return
+	}
 	fn, ok := checks.Registry[cmd]
 	if !ok {
 		fmt.Fprintln(os.Stderr, "unknown property", cmd, "- known:", checks.IDs())
